@@ -260,6 +260,34 @@ CHECKS["C05"] = dict(
     technique="Lean 4 definitional-equality and rejection proofs on the parsed-tree model + valid/malformed differential streams + exact oracle",
     design="§7 C05")
 
+CHECKS["C06"] = dict(
+    text="Machine-checked (Lean 4, any ordered field) about the model of find_location / create_stog (repaired): find_location answers "
+         "side s exactly when the rectangle abuts side s of the trunk within that side's extent (tolerance eps) and does not overlap it "
+         "by more than eps_A — an earlier elif never pre-empts a valid later side, at most one side qualifies, TRUNK is never answered; "
+         "create_stog returns True exactly when SOME rectangle can serve as trunk with every other rectangle located with respect to it "
+         "(sound and complete); on True the trunk is first with role TRUNK and every other rectangle carries exactly its side, on False "
+         "no rectangle carries a role; the output list is a permutation of the input up to roles (nothing altered, dropped, duplicated). "
+         "Tied to create_stog, Module.create_stog and Netlist loading on every run: verdict, order and roles for lists built by "
+         "construction and by destruction (gap / overhang / overlap near misses, equal-area twin trunks, stale roles, repeated "
+         "rectangles), every permutation for length <= 4 (thorough 5), and the geometric clauses evaluated exactly on the outputs.",
+    note="Hypotheses: trunk sides > 0, other sides > 2*eps; list elements are distinct objects (aliased lists outside the model); exact "
+         "arithmetic, rounding executed only (near-ties on the float stream excluded by an exact-margin test); repair committed first "
+         "(trunk skipped by identity).",
+    technique="Lean 4 soundness/completeness/permutation proofs + differential run over permutations + exact geometric oracle", design="§7 C06")
+CHECKS["C11"] = dict(
+    text="Machine-checked (Lean 4) about the model of split_rectangles (phase 1 worklist = deque, phase 2 = heapq mirrored statement by "
+         "statement, repaired), Die.split_refinable_regions and Die.initial_grid: the result has at least n (rows x columns) regions "
+         "forming one exact tiling per former refinable region — every piece inside its region with the same tag and flags, total area "
+         "and covered point set unchanged, disjointness preserved — and every region has aspect ratio <= r; the tiling invariant is "
+         "preserved by ANY split, hence independent of heap order and tie-breaks; blockages, fixed regions and the outline are untouched; "
+         "termination with an explicit fuel bound (automatic in Archimedean fields) and the result does not depend on the fuel; n = 0 or "
+         "r <= 1.415 is rejected. Tied to the code on every run incl. exact output ORDER on dyadic dies and heapq push/pop scripts with "
+         "equal keys; clauses evaluated exactly on the implementation's outputs (r in [1.42, 3], n up to 64).",
+    note="Loops modelled with fuel; at least one refinable region required (empty heap otherwise); die construction not modelled here "
+         "(state read from the implementation before the call; C01); exact arithmetic; repair committed first (phase 2 re-split for r < 2).",
+    technique="Lean 4 tiling-invariant / count / aspect / termination proofs + statement-level deque/heapq correspondence + exact clause evaluation",
+    design="§7 C11")
+
 NOT_APPLICABLE = {}
 
 def main():
